@@ -199,7 +199,9 @@ func runHistory(run *vk.Run, r *rand.Rand, cfg historyCfg) {
 		ad.AddAll(adapter.SocketID(s.sid), rs)
 		socks = append(socks, s)
 	}
-	victim := socks[0]
+	// one or two sessions are lost at the same point and recovered one after the other from the same log:
+	// a restore must not disturb the log for the next one
+	nv := 1 + r.Intn(2)
 	var log []*mpacket
 	uid := 0
 	emit := func() {
@@ -239,30 +241,39 @@ func runHistory(run *vk.Run, r *rand.Rand, cfg historyCfg) {
 	for i := 0; i < cfg.k; i++ {
 		emit()
 	}
-	// what did the victim receive so far? its last offset is what a client would present.
-	st.mu.Lock()
-	got := append([]delivery(nil), st.got[adapter.SocketID(victim.sid)]...)
-	st.mu.Unlock()
-	lastOffset := ""
-	lastOffsetUID := 0
-	for _, d := range got {
-		if d.offset != "" {
-			lastOffset, lastOffsetUID = d.offset, d.uid
-		}
+	type vstate struct {
+		s                     *msess
+		lastOffset            string
+		lastOffsetUID         int
+		discBefore, discAfter time.Time
 	}
-	// live delivery must match the model as well (targets C04, but integrity of binary frames matters here)
-	for _, d := range got {
-		if d.err != "" {
-			run.Violation(vk.Violation{Sub: "live-delivery-corrupt", Fields: map[string]any{"binary": cfg.binary}, What: "live broadcast frames undecodable/altered: " + d.err, Witness: nil})
-		}
-	}
-	// disconnect (recoverable): persist, leave all, remove
+	var vs []*vstate
 	passesBefore := adapter.VerifHookHits(hookCleaner)
-	discBefore := time.Now()
-	ad.PersistSession(&adapter.SessionToPersist{SID: adapter.SocketID(victim.sid), PID: adapter.PrivateSessionID(victim.pid), Rooms: toRooms(victim.rooms)})
-	discAfter := time.Now()
-	ad.DeleteAll(adapter.SocketID(victim.sid))
-	st.Remove(adapter.SocketID(victim.sid))
+	for _, victim := range socks[:nv] {
+		// what did the victim receive so far? its last offset is what a client would present.
+		st.mu.Lock()
+		got := append([]delivery(nil), st.got[adapter.SocketID(victim.sid)]...)
+		st.mu.Unlock()
+		v := &vstate{s: victim}
+		for _, d := range got {
+			if d.offset != "" {
+				v.lastOffset, v.lastOffsetUID = d.offset, d.uid
+			}
+		}
+		// live delivery must match the model as well (targets C04, but integrity of binary frames matters here)
+		for _, d := range got {
+			if d.err != "" {
+				run.Violation(vk.Violation{Sub: "live-delivery-corrupt", Fields: map[string]any{"binary": cfg.binary}, What: "live broadcast frames undecodable/altered: " + d.err, Witness: nil})
+			}
+		}
+		// disconnect (recoverable): persist, leave all, remove
+		v.discBefore = time.Now()
+		ad.PersistSession(&adapter.SessionToPersist{SID: adapter.SocketID(victim.sid), PID: adapter.PrivateSessionID(victim.pid), Rooms: toRooms(victim.rooms)})
+		v.discAfter = time.Now()
+		ad.DeleteAll(adapter.SocketID(victim.sid))
+		st.Remove(adapter.SocketID(victim.sid))
+		vs = append(vs, v)
+	}
 	half := (cfg.n - cfg.k) / 2
 	for i := cfg.k; i < cfg.n; i++ {
 		if i == cfg.k+half && cfg.tailGap > 0 {
@@ -273,6 +284,21 @@ func runHistory(run *vk.Run, r *rand.Rand, cfg historyCfg) {
 	if cfg.gap > 0 {
 		time.Sleep(cfg.gap)
 	}
+	if nv == 2 && r.Intn(2) == 0 {
+		vs[0], vs[1] = vs[1], vs[0]
+	}
+	for vi, v := range vs {
+		judgeRestore(run, r, cfg, ad, v.s.sid, v.s.pid, v.s.rooms, v.lastOffset, v.lastOffsetUID, v.discBefore, v.discAfter, passesBefore, log, nv, vi)
+	}
+}
+
+// judgeRestore restores one lost session and compares the outcome with the model.
+func judgeRestore(run *vk.Run, r *rand.Rand, cfg historyCfg, ad adapter.Adapter, vsid, vpid string, vrooms []string, lastOffset string, lastOffsetUID int,
+	discBefore, discAfter time.Time, passesBefore int64, log []*mpacket, nv, vi int) {
+	victim := struct {
+		sid, pid string
+		rooms    []string
+	}{vsid, vpid, vrooms}
 	restoreBefore := time.Now()
 	sess, ok := ad.RestoreSession(adapter.PrivateSessionID(victim.pid), lastOffset)
 	restoreAfter := time.Now()
@@ -308,7 +334,7 @@ func runHistory(run *vk.Run, r *rand.Rand, cfg historyCfg) {
 		offsetDead = restoreBefore.Sub(offsetPkt.emitted)-margin > cfg.window && passes > int64(len(log)) // every expired entry surely cleaned
 	}
 	fields := map[string]any{"binary": cfg.binary, "cleaner": cfg.cleaner > 0}
-	wit := map[string]any{"window_ms": cfg.window.Milliseconds(), "cleaner_ms": cfg.cleaner.Milliseconds(), "n": cfg.n, "k": cfg.k, "gap_ms": cfg.gap.Milliseconds(),
+	wit := map[string]any{"sessions_lost_together": nv, "restore_order_index": vi, "window_ms": cfg.window.Milliseconds(), "cleaner_ms": cfg.cleaner.Milliseconds(), "n": cfg.n, "k": cfg.k, "gap_ms": cfg.gap.Milliseconds(),
 		"cleaner_passes_between": passes, "elapsed_upper_ms": elapsedUpper.Milliseconds(), "last_offset_uid": lastOffsetUID, "victim_rooms": victim.rooms, "want_missed_uids": want, "seed": run.Seed()}
 	class := "inconclusive-window"
 	switch {
@@ -368,7 +394,7 @@ func runHistory(run *vk.Run, r *rand.Rand, cfg historyCfg) {
 		}
 	}
 	_ = offsetDead
-	run.Distinct(fmt.Sprintf("adapter/%s/binary=%v/cleaner=%v/passes=%s/missed=%s", class, cfg.binary, cfg.cleaner > 0, bucket(int(passes)), bucket(len(want))))
+	run.Distinct(fmt.Sprintf("adapter/%s/binary=%v/cleaner=%v/passes=%s/missed=%s/restore=%d-of-%d", class, cfg.binary, cfg.cleaner > 0, bucket(int(passes)), bucket(len(want)), vi+1, nv))
 	run.Count("adapter_"+class, 1)
 	if r.Intn(400) == 0 {
 		run.Sample(wit)
